@@ -84,7 +84,10 @@ def logged_decode(dec, code, err_z, qidx):
     n = code.n
     e = np.zeros(2 * n, dtype=np.uint8)
     e[n + np.array(sorted(err_z), dtype=int)] = 1
-    syndrome = np.asarray(code.measure_syndrome(e)).ravel().astype(np.uint8)
+    # the measured syndrome in the array types callers pass: what
+    # measure_syndrome returns (uint8), a boolean array, int64 (from JSON)
+    dt = (np.uint8, bool, np.int64, np.uint8)[(len(err_z) + sum(int(q) for q in err_z)) % 4]
+    syndrome = np.asarray(code.measure_syndrome(e)).ravel().astype(dt)
     steps = []
     flips = []
     stutter = [0]
